@@ -312,6 +312,8 @@ where
     ) -> Option<ActionT> {
         let mut recoverer = None;
         let mut recovery_budget = Duration::from_millis(RECOVERY_TIME_BUDGET);
+        #[cfg(grmtools_verif)]
+        let mut recovery_budget = crate::verif_hooks::budget().unwrap_or(recovery_budget);
         loop {
             debug_assert_eq!(astack.len(), spans.len());
             let stidx = *pstack.last().unwrap();
